@@ -295,6 +295,23 @@ theorem C02_full_fails :
     Spec.C02.check (trace f1CrashOps) = some "delete-overlaps-inflight-snapshot:s0f0t100" ∧
     safeFrom init f1CrashOps = false := by decide
 
+/-- F18: a snapshot attempt fails after `Cache.Snapshot`, a write is acknowledged, the retry
+    commits the OLD snapshot store and removes every closed WAL segment, crash, reopen, read -/
+def f18Ops : List Op :=
+  [.write [⟨⟨0,0⟩,1,1⟩], .snapFail, .write [⟨⟨0,0⟩,2,2⟩], .snapBegin, .snapTo .idle, .crash false,
+   .read ⟨0,0⟩ 0 1000 true]
+
+/-- **C02 at full strength fails, second witness** (found by this model, reproduced on the real
+    engine by the check): the write acknowledged between a failed snapshot attempt and its retry
+    is lost by a crash after the retry — `Cache.Snapshot` returns the stale snapshot store for the
+    retry while `WAL.ClosedSegments` already lists the segment holding the newer write, and
+    `writeSnapshotAndCommit` removes it. -/
+theorem C02_full_fails_retry :
+    (∀ op ∈ f18Ops, inScope' op = true) ∧ Spec.C02.holdsOn (trace f18Ops) = false ∧
+    Spec.C02.check (trace f18Ops) = some "write-after-failed-snapshot-lost:s0f0t2" ∧
+    (trace f18Ops).getLast? = some (.read ⟨0,0⟩ 0 1000 true, .rows [(1, 1)]) ∧
+    safeFrom init f18Ops = false := by decide
+
 /-- the hypotheses of C02_partial are met by a history with a torn write, a crash inside a
     snapshot commit, a crash inside a compaction's replace, a delete interrupted after its
     tombstones, and writes after every reopen -/
@@ -303,7 +320,7 @@ def okOps : List Op :=
    .write [⟨⟨0,0⟩,3,3⟩], .snapBegin, .snapTo .replaced, .crash false, .read ⟨0,0⟩ 0 10 true,
    .write [⟨⟨0,0⟩,1,5⟩], .snapBegin, .snapTo .idle, .compactCrash 0 1 .afterRemoveOld 1, .read ⟨0,0⟩ 0 10 true,
    .delete [0] 3 3, .crash false, .deleteCrash [0] 1 1, .read ⟨0,0⟩ 0 10 true, .write [⟨⟨0,0⟩,7,7⟩],
-   .crash false, .read ⟨0,0⟩ 0 10 false]
+   .snapFail, .snapBegin, .snapTo .idle, .crash false, .read ⟨0,0⟩ 0 10 false]
 
 example : (∀ op ∈ okOps, inScope' op = true) ∧ safeFrom init okOps = true ∧
     (trace okOps)[3]? = some (.read ⟨0,0⟩ 0 10 true, .rows [(1, 1)]) ∧
